@@ -218,6 +218,12 @@ func (w *c14) build() {
 func (w *c14) dirName(d virtual.PrepopulatedDirectory) string {
 	for i, x := range w.dirs {
 		if x == d {
+			if w.attrDir[d] {
+				// Calls on named attribute directories are labelled, so
+				// that the recorded findings on that path match only
+				// histories that go through it.
+				return fmt.Sprintf("D%d[named-attribute-directory]", i)
+			}
 			return fmt.Sprintf("D%d", i)
 		}
 	}
@@ -607,7 +613,6 @@ func (c *caller) call() {
 			dn = w.dirName(d)
 		}
 		if w.attrDir[d] {
-			dn += "[named-attribute-directory]"
 			w.k.Probe("c14_link_into_named_attribute_directory")
 		}
 		c.begin("VirtualLink(%s, %q, leaf)", dn, name)
